@@ -165,7 +165,9 @@ def check_history(case):
             ents = [(k, v) for k, v in pool["root"]["N"].get("signatures", {}).items() if isinstance(v, dict)] if isinstance(pool["root"]["N"], dict) else []
             if ents:
                 k, v = ents[b % len(ents)]
-                call(name, A.verify_gpg_signature, [v, k, canon(pool["root"]["N"]["signed"])])
+                data = canon(pool["root"]["N"]["signed"])
+                # the payload as bytes, and as a mutable buffer (the function admits any bytes-like object)
+                call(name, A.verify_gpg_signature, [v, k, data if a % 2 else bytearray(data)])
         elif name == "wrap_as_signable":
             p = pool["payloads"][b % len(pool["payloads"])]
             before = snap(p)
